@@ -2,7 +2,7 @@
 # usage: tools/confirm_seed.sh C10 [name]  -- independently confirms a sub-agent's change in a fresh scratch worktree and stores it under seeded/
 set -u
 ID="$1"; NAME="${2:-$ID}"
-SRC=/tmp/mut_$ID
+SRC=${SRC:-/tmp/mut_$ID}
 W=/tmp/confirm_$NAME
 id=$(echo $ID | tr 'A-Z' 'a-z')
 [ -f $SRC/patch.diff ] || { echo "no patch.diff in $SRC"; exit 2; }
